@@ -504,8 +504,12 @@ func VerbMatrix() *m.Design {
 		// one endpoint, two routes of different verbs
 		&m.Method{Name: "ping", HTTP: &m.HTTPEndpoint{Routes: []m.Route{{Verb: "HEAD", Path: "/verbs/ping"}, {Verb: "OPTIONS", Path: "/verbs/ping"}}, Responses: []*m.Response{{Status: 204}}}})
 	return &m.Design{API: m.API{Name: "verbs", Title: "Verb matrix"},
-		Services: []*m.Service{{Name: "verbs", HasHTTP: true, Methods: methods}},
-		Features: []string{"fixed-design:verb-matrix", "all-verbs", "head-route", "two-verbs-one-path"}}
+		// file servers (GET) on paths that endpoints of other verbs use: in the same
+		// service and in a service declared later
+		Services: []*m.Service{{Name: "verbs", HasHTTP: true, Methods: methods, Files: []m.FileServer{{Path: "/verbs/post", Filename: "public/post.html"}}},
+			{Name: "assets", HasHTTP: true, Files: []m.FileServer{{Path: "/verbs/put", Filename: "public/put.html"}, {Path: "/verbs/delete", Filename: "public/delete.html"}},
+				Methods: []*m.Method{{Name: "info", HTTP: &m.HTTPEndpoint{Routes: []m.Route{{Verb: "GET", Path: "/assets/info"}}, Responses: []*m.Response{{Status: 204}}}}}}},
+		Features: []string{"fixed-design:verb-matrix", "all-verbs", "head-route", "two-verbs-one-path", "file-server-on-the-path-of-a-non-GET-endpoint"}}
 }
 
 // RawBodyMatrix is a fixed design whose methods stream the HTTP request and /
